@@ -3,7 +3,7 @@
    booster::aio::event_loop_impl at lock granularity: [run_labels ls st0] is the state after ANY interleaving
    [ls] of critical sections executed by any number of threads (labels are total: a label that is not enabled,
    or that re-uses a handler id, is a no-op), so a statement quantified over [ls] holds for every schedule. *)
-From CppcmsV Require Import Base.Tac C17.Defs C17.Proofs C17.Proofs2 C17.Proofs3 C17.Proofs4 C17.Proofs5 C17.Proofs6.
+From CppcmsV Require Import Base.Tac C17.Defs C17.Proofs C17.Proofs2 C17.Proofs3 C17.Proofs4 C17.Proofs5 C17.Proofs6 C17.Proofs7.
 Local Open Scope N_scope.
 
 (* 1. conservation: every handler id ever accepted by post / set_io_event / set_timer_event occurs exactly once in
@@ -43,6 +43,22 @@ Theorem exactly_once_at_quiescence : forall ls,
   forall h, In h (map fst (subs s)) <-> count_occ N.eq_dec (log_toks (log s)) h = 1%nat.
 Proof. intros ls s P D h. apply (Cons_quiescent s (reach_Cons s (reach_run ls)) P D h). Qed.
 Print Assumptions exactly_once_at_quiescence.
+
+(* FINDING (refuted expectation): one would expect that a client which cancels before it arms a direction again never
+   loses a handler.  The faithful model refutes it: thread A arms descriptor 0 with handler 2 while the loop polls
+   (deferred setter); the loop wakes and starts a handler; now cancel_io_events(0) - from that handler or from any
+   other thread, polling_ is false - is executed IN PLACE although the setter is still queued, finds nothing, and
+   the following set_io_event(0) with handler 3 is executed in place as well; the queued setter then overwrites the
+   registration: handler 3 is dropped and never invoked.  Replayed on the real io_service: corpus/C17/findings.case *)
+Definition lost_demo : list label :=
+  [LBegin; LPost 1 Ok; LSetIo 0 DIn 2 false; LPollEnd [] true; LBegin; LExec false; LCancelIo 0; LSetIo 0 DIn 3 false;
+   LDone; LExec false; LDone; LCancelIo 0; LPollEnd [] true; LBegin; LExec false; LDone;
+   LPollEnd [] false; LBegin; LExec false; LDone].
+Theorem cancel_before_rearm_keeps_every_handler_refuted :
+  exists ls, let s := run_labels ls st0 in
+  (dropped s = [3] /\ pending_toks s = [] /\ log_toks (log s) = [1;2] /\ map fst (subs s) = [1;2;3])%type.
+Proof. exists lost_demo. vm_compute. repeat split. Qed.
+Print Assumptions cancel_before_rearm_keeps_every_handler_refuted.
 
 (* 4. handlers are invoked only by the loop thread: the only step that extends the log is the exec step of run_one,
       and it invokes exactly the entry the loop thread popped, with the completion code stored in that entry *)
@@ -93,9 +109,23 @@ Theorem no_lost_wakeup : forall ls,
   (lpc s = Poll <-> polling s = true) /\ (lpc s = Poll -> (q_nonempty s = true -> timeout s = 0 \/ woken s = true) /\ (stop s = true -> woken s = true)).
 Proof. intros ls. exact (Winv_run ls st0 Winv_init). Qed.
 Print Assumptions no_lost_wakeup.
-(* progress_partial: the timer half of 3 (a timer armed as the new earliest while polling wakes the loop; a due timer
-   is queued by the next timers stage) and the drain bound (an entry present at the start of run_one is executed
-   in that run_one unless stopped) are covered by the correspondence run only, see docs/C17.md *)
+(* timer half of the wake-up invariant: while the loop thread is inside the reactor poll, the sleep it asked for
+   (from pstart, for timeout ms) does not extend beyond the deadline of any armed timer, unless the self-pipe has
+   been written (a timer armed or re-armed as the new earliest while polling wakes the loop) *)
+Theorem no_sleep_past_a_deadline : forall ls,
+  let s := run_labels ls st0 in
+  lpc s = Poll -> forall dl h, In (dl,h) (timers s) -> woken s = true \/ pstart s + timeout s <= dl.
+Proof. intros ls. exact (reach_TW _ (reach_run ls)). Qed.
+Print Assumptions no_sleep_past_a_deadline.
+Example sleep_nonvacuous :
+  let s := run_labels [LSetTimer 1 40; LBegin; LTick 5; LSetTimer 2 60; LSetTimer 3 20] st0 in
+  (lpc s = Poll /\ timeout s = 40 /\ pstart s = 0 /\ map fst (timers s) = [20;40;60] /\ woken s = true /\
+   woken (run_labels [LSetTimer 1 40; LBegin; LTick 5; LSetTimer 2 60] st0) = false)%type.
+Proof. vm_compute. repeat split. Qed.
+(* progress_partial: what is NOT proved is one end-to-end liveness statement (under a fairness assumption on the loop
+   thread and on the reactor, every handler whose event happened is eventually invoked); the safety ingredients are
+   proved separately: no_lost_wakeup, no_sleep_past_a_deadline, due_timers_are_dispatched, only_loop_thread_pops,
+   run_one_pops_front / _next / _budget_end *)
 Example wakeup_nonvacuous :
   let s := run_labels [LBegin; LPost 7 Ok] st0 in (lpc s = Poll /\ q_nonempty s = true /\ timeout s = IDLE_MS /\ woken s = true)%type.
 Proof. vm_compute. repeat split. Qed.
